@@ -19,6 +19,11 @@ The normal form describes *what was compiled*, not how it was spelled:
     tag object                     -> ['obj', class name, [[attr, value form] ... sorted]]
                                       every instance attribute, except raw-source-only fields
                                       (RAW_ONLY: Let.__name__ holds the tag's argument text verbatim)
+    a tag's parsed attribute dictionary ``args`` -> ['args', ['ref', 'name'|'expr', text] | None,
+                                      [[attribute, value] ... sorted]]: the keys '' / 'name' / 'expr'
+                                      only record WHICH documented spelling of the reference was
+                                      written (x, name=x, "e", expr="e"); they are folded into one
+                                      'ref' entry, every other attribute is kept as parsed
     attributes holding block lists (section, elses, elseBlock, finallyBlock) -> ['blocks', [...]];
     Try.handlers -> ['handlers', [[exception name, ['blocks', ...]] ...]]
     Eval instance -> ['Eval', text]; function -> ['func', name]; compiled regex -> ['re', pattern];
